@@ -137,6 +137,17 @@ var Probes = []Probe{
 			}
 			return false, ""
 		}},
+	{ID: "O33", Props: []string{"C14"}, Input: "f := func() { return 1 + \"a\" }; g := copy(f); g()", WhatFail: "copy() of a compiled function dropped its source map: a run-time error inside the copy was reported at '-' (no file, no line)",
+		Run: func() (bool, string) {
+			_, e, p := RunScript("f := func() {\n  return 1 + \"a\"\n}\ng := copy(f)\ng()\n", 5*time.Second)
+			if p != "" {
+				return true, "panic: " + p
+			}
+			if !strings.Contains(e, "(main):2:") {
+				return true, "no location inside the failing statement of the copied function: " + e
+			}
+			return false, ""
+		}},
 	{ID: "O30", Props: []string{"C01", "C02"}, Input: "call with 256 arguments", WhatFail: "the argument count of OpCall is one byte: a call with 256 arguments is compiled as a call with 0 arguments",
 		Run: func() (bool, string) {
 			var ps, as []string
